@@ -40,7 +40,8 @@ RULE = ('case = one seeded schedule (config + PRNG seed => decision list) over b
 ASSUMPTIONS = ['a message that waits for a pool slot the harness itself is occupying is never judged (full quiescence only)',
                'liveness restated: after every timer has been fired and nothing is in flight nothing may remain stored']
 REQUIRED_HITS = ['attempt-outcomes-observed', 'histories-judged', 'timer-expiries', 'full-quiescence-checkpoints',
-                 'flush-while-load-streaming-judged', 'burst-20-equal-due-bounded-pool', 'late-timer-steps',
+                 'flush-while-load-streaming-judged', 'announcement-of-listed-id-while-load-streaming',
+                 'burst-20-equal-due-bounded-pool', 'late-timer-steps',
                  'non-integer-or-negative-waits']
 SHARDS = {'quick': 12, 'thorough': 16}
 BUDGET = {'quick': 70, 'thorough': 800}
@@ -65,6 +66,22 @@ def gen_cases(tier, seed, shard, nshards):
                    'store_pool': rnd.choice([None, None, 1, 2, 3]), 'relay_pool': rnd.choice([None, None, None, 1, 2]),
                    'gate_p': rnd.choice([0.5, 0.8]), 'gate_ops': ['load'], 'flush_p': 1.0, 'race_start': True,
                    'synth_wait': rnd.random() < 0.3, 'announce_p': 0.2, 'bounce_none_p': 1.0, 'steps': 30}
+            yield {'cfg': cfg, 'seed': rnd.randrange(1 << 40)}
+    # ---- a stored message read early by the start-up listing ALSO reaches the queue by another route (wait()
+    # announcement of the same id) while the listing still streams, fails transiently and is re-queued far in the
+    # future before the listing ends; no flush (a flush would excuse an early attempt). Only the listing is gated.
+    nal = (1300 if tier == 'quick' else 30000)
+    for be in ('disk', 'redis', 'cloud', 'cloud-lenient', 'cloud-mq'):
+        for i in range(max(1, int(nal / 5.0 / C.WEIGHT[be]) // nshards)):
+            cfg = {'backend': be, 'stratum': 'announce-in-load',
+                   'profile': rnd.choice([['temp'], ['temp', 'temp', 'exc']]), 'rcpt_profile': ['temp'],
+                   'backoffs': rnd.choice([[300, 300, None], [50, 500, None], [120, None]]),
+                   'rcpts': (1, 2), 'nmsg': rnd.randint(0, 1), 'prepop': rnd.randint(4, 9),
+                   'prepop_offsets': rnd.choice([[-100.0, -1.0], [-1.0, -1.0, 3600.0], [-5.0]]),
+                   'store_pool': rnd.choice([None, None, None, 2, 3]), 'relay_pool': rnd.choice([None, None, None, 2]),
+                   'gate_p': rnd.choice([0.6, 0.9]), 'gate_ops': ['load'], 'flush_p': 0, 'race_start': True,
+                   'synth_wait': True, 'announce_p': 0.9, 'bounce_none_p': 1.0, 'steps': 40,
+                   'hold_clock_in_load': rnd.random() < 0.8}
             yield {'cfg': cfg, 'seed': rnd.randrange(1 << 40)}
     # ---- many messages due at the same instant, bounded pools: _check_ready / flush() block in Pool.spawn
     # with most of the cut still to hand over while finished attempts re-queue
@@ -127,6 +144,17 @@ def _hits(lab, H, R):
             n += 1
             nent += len(e[4] or ()) if len(e) > 4 else 0
     R.hit('flush-while-load-streaming-judged', n)
+    # a wait() announcement of an id the start-up listing has already yielded, consumed before the listing ended
+    listed, loading, nann = set(), False, 0
+    for e in lab.events:
+        if e[1] == 'store' and e[2] == 'load_entry':
+            loading = True
+            listed.add(H.sid(e[3]))
+        elif e[1] == 'store' and e[2] == 'load_done':
+            loading = False
+        elif e[1] == 'store' and e[2] == 'wait' and loading:
+            nann += sum(1 for x in e[3] if H.sid(x[1]) in listed)
+    R.hit('announcement-of-listed-id-while-load-streaming', nann)
     R.count('timetable-entries-at-flush-while-load-streaming', nent)
     # largest group of stored messages sharing one due instant, with at least one bounded pool
     import collections
